@@ -59,8 +59,6 @@ def routes_writer_ok(m, fi, e):
 def run(rep):
     repo = rep.repo
     app, route, err = repo.mod(APP), repo.mod(ROUTE), repo.mod(ERR)
-    dv = DispatchView(repo)
-    cfg, f = dv.cfg, dv.fi
     rep.decide('R06.a insertion order; R06.b dispatch-loop typestate; R06.c sentinel priority; R06.d method '
                'normalisation; R06.e 405 carries Allow')
     rep.decline('which pattern matches a path (C05); response bodies')
@@ -70,35 +68,49 @@ def run(rep):
     rep.rule('R06.d', 'method normalisation in Route.__init__ / match_method / update_methods')
     rep.rule('R06.e', 'provenance: allowed_methods -> headers["Allow"]')
 
-    # ---- R06.a -----------------------------------------------------------
-    # positive control: the detector must see a reordering write in an embedded example
-    ctl = ast.parse('class X:\n    def f(self, app):\n        app.routes.sort()\n        self.routes = sorted(self.routes)\n')
-    n_ctl = 0
-    for fn in ast.walk(ctl):
-        if isinstance(fn, ast.FunctionDef):
-            for e in effects.effects_in(fn):
-                ch = e.chain or []
-                if 'routes' in ch:
-                    n_ctl += 1
-    if n_ctl != 2:
-        raise AnalysisError('positive control for the .routes writer detector failed (%d)' % n_ctl)
-    for m, fi, e in routes_writers(repo):
-        ok = routes_writer_ok(m, fi, e)
-        rep.check('R06.a', 'writer::%s::%s' % (fi.key, norm(e.node)[:80]), ok,
-                  'documented set-up write of the routing table' if ok else
-                  '%s writes a routing table (%s): routes may be reordered / removed after insertion' % (fi.key, short(e.node)), m, e.node)
-    check_running_index(rep, 'R06.a')
-    it = norm(dv.iter_expr)
-    ok = it in ('self.routes + [self._null_route]', '[*self.routes, self._null_route]', 'itertools.chain(self.routes, [self._null_route])',
-                'chain(self.routes, [self._null_route])')
-    if ok and dv.iter_expr is not dv.loop.iter:
-        # the sequence is held in a local first: that local is read by the loop only (nobody re-orders it in between)
-        ok = isinstance(dv.loop.iter, ast.Name) and \
-            sum(1 for n in walk_body(f.node) if isinstance(n, ast.Name) and n.id == dv.loop.iter.id and isinstance(n.ctx, ast.Load)) == 1
-    rep.check('R06.a', fkey(f, 'iteration'), ok, 'dispatch walks self.routes in list order, then the null route' if ok else
-              'dispatch does not iterate self.routes + [null route] directly: %s' % it, app, dv.loop)
-    rep.floor('R06.a', 5)
-    _rest(rep, repo, app, route, err, dv, cfg, f)
+    def order_rules():
+        # ---- R06.a -----------------------------------------------------------
+        # positive control: the detector must see a reordering write in an embedded example
+        ctl = ast.parse('class X:\n    def f(self, app):\n        app.routes.sort()\n        self.routes = sorted(self.routes)\n')
+        n_ctl = 0
+        for fn in ast.walk(ctl):
+            if isinstance(fn, ast.FunctionDef):
+                for e in effects.effects_in(fn):
+                    ch = e.chain or []
+                    if 'routes' in ch:
+                        n_ctl += 1
+        if n_ctl != 2:
+            raise AnalysisError('positive control for the .routes writer detector failed (%d)' % n_ctl)
+        for m, fi, e in routes_writers(repo):
+            ok = routes_writer_ok(m, fi, e)
+            rep.check('R06.a', 'writer::%s::%s' % (fi.key, norm(e.node)[:80]), ok,
+                      'documented set-up write of the routing table' if ok else
+                      '%s writes a routing table (%s): routes may be reordered / removed after insertion' % (fi.key, short(e.node)), m, e.node)
+        check_running_index(rep, 'R06.a')
+
+    def loop_rules():
+        dv = DispatchView(repo)
+        cfg, f = dv.cfg, dv.fi
+        it = norm(dv.iter_expr)
+        ok = it in ('self.routes + [self._null_route]', '[*self.routes, self._null_route]', 'itertools.chain(self.routes, [self._null_route])',
+                    'chain(self.routes, [self._null_route])')
+        if ok and dv.iter_expr is not dv.loop.iter:
+            # the sequence is held in a local first: that local is read by the loop only (nobody re-orders it in between)
+            ok = isinstance(dv.loop.iter, ast.Name) and \
+                sum(1 for n in walk_body(f.node) if isinstance(n, ast.Name) and n.id == dv.loop.iter.id and isinstance(n.ctx, ast.Load)) == 1
+        rep.check('R06.a', fkey(f, 'iteration'), ok, 'dispatch walks self.routes in list order, then the null route' if ok else
+                  'dispatch does not iterate self.routes + [null route] directly: %s' % it, app, dv.loop)
+        _loop_rules(rep, repo, app, dv, cfg, f)
+
+    # each group is analysed on its own: a construct one group cannot follow does not hide the verdicts of the others
+    rep.guard(order_rules)
+    rep.guard(loop_rules)
+    rep.guard(lambda: rep.floor('R06.a', 5))
+    rep.guard(lambda: rep.floor('R06.b', 9))
+    rep.guard(_sentinel_rules, rep, repo, app, route)
+    rep.guard(_method_rules, rep, repo, app, route)
+    rep.guard(lambda: rep.floor('R06.d', 12))
+    rep.guard(_allow_rules, rep, repo, err)
 
 
 def check_running_index(rep, rule):
@@ -167,7 +179,7 @@ def check_running_index(rep, rule):
               'default insertion index is not len(self.routes)', app, dflt[0] if dflt else ad.node)
 
 
-def _rest(rep, repo, app, route, err, dv, cfg, f):
+def _loop_rules(rep, repo, app, dv, cfg, f):
     # ---- R06.b -----------------------------------------------------------
     head = dv.head
     # (i) no effect before the path test: the loop body starts with the match, its result is tested for None next, and the
@@ -232,8 +244,15 @@ def _rest(rep, repo, app, route, err, dv, cfg, f):
     ok = bool(br_ifs) and all(dv.method_ok_conds(dv.conds(s)) for s in br_ifs)
     rep.check('R06.b', fkey(f, 'method test before slash handling'), ok, 'slash handling happens only for admitted methods' if ok else
               'slash handling is reachable before/without the method test', app, br_ifs[0] if br_ifs else dv.loop)
-    rep.floor('R06.b', 9)
+    # every request starts from its own dispatch state (R06.c)
+    ds_new = [s for s in stmts_of(f.node) if isinstance(s, ast.Assign) and isinstance(s.value, ast.Call) and call_name(s.value) == 'DispatchState']
+    ok = len(ds_new) == 1 and not cfg.reach(cfg.nodes_of(ds_new[0]), include_src=False) & set(cfg.nodes_of(ds_new[0])) and \
+        cfg.must_pass(cfg.nodes_of(ds_new[0]), cfg.entry, head)
+    rep.check('R06.c', fkey(f, 'fresh DispatchState'), ok, 'one fresh DispatchState per dispatch, created before the loop' if ok else
+              'DispatchState is not created once per request before the loop', app, ds_new[0] if ds_new else f.node)
 
+
+def _sentinel_rules(rep, repo, app, route):
     # ---- R06.c -----------------------------------------------------------
     hs = route.func('NullRoute.handle_sentinel_condition')
     ds = [p for p in hs.params() if 'dispatch_state' in p]
@@ -291,12 +310,9 @@ def _rest(rep, repo, app, route, err, dv, cfg, f):
     ok = asg.get('self.exceptions') == '[]' and asg.get('self.allowed_methods') == 'set()'
     rep.check('R06.c', fkey(dsi), ok, 'every request starts with an empty dispatch state' if ok else
               'DispatchState does not start empty: %s' % asg, app, dsi.node)
-    ds_new = [s for s in stmts_of(f.node) if isinstance(s, ast.Assign) and isinstance(s.value, ast.Call) and call_name(s.value) == 'DispatchState']
-    ok = len(ds_new) == 1 and not cfg.reach(cfg.nodes_of(ds_new[0]), include_src=False) & set(cfg.nodes_of(ds_new[0])) and \
-        cfg.must_pass(cfg.nodes_of(ds_new[0]), cfg.entry, head)
-    rep.check('R06.c', fkey(f, 'fresh DispatchState'), ok, 'one fresh DispatchState per dispatch, created before the loop' if ok else
-              'DispatchState is not created once per request before the loop', app, ds_new[0] if ds_new else f.node)
 
+
+def _method_rules(rep, repo, app, route):
     # ---- R06.d -----------------------------------------------------------
     ri = route.func('Route.__init__')
     rres = lambda e: resolve_local(ri.node, e)
@@ -399,8 +415,9 @@ def _rest(rep, repo, app, route, err, dv, cfg, f):
         ok = len(m) == 1 and repo.try_fold(m[0].value, route) in ((q,), [q])
         rep.check('R06.d', '%s::%s' % (ROUTE, q), ok, 'convenience class %s declares method %s' % (q, q) if ok else
                   'convenience route class %s declares %s' % (q, norm(m[0].value) if m else None), route, ci.node)
-    rep.floor('R06.d', 12)
 
+
+def _allow_rules(rep, repo, err):
     # ---- R06.e -----------------------------------------------------------
     eh = err.cls('ErrorHandler')
     dc, val = repo.class_attr(eh, 'method_not_allowed_type')
